@@ -22,6 +22,7 @@ func HarnessPack(w int, oracleFault int) {
 	}
 	pre := vNondetU8()
 	out := Pack([]byte{pre}, w, vals)
+	vObserve(out)
 	vAssert(len(out) == w+1, "packed length is w")
 	if len(out) != w+1 {
 		return
@@ -37,6 +38,7 @@ func HarnessPack(w int, oracleFault int) {
 	}
 	vAssert(ok, "spec layout (LSB-first, little-endian)")
 	back := Unpack(w, out[1:])
+	vObserve(back)
 	vAssert(len(back) == 8, "unpacked count is 8")
 	if len(back) != 8 {
 		return
@@ -58,6 +60,7 @@ func HarnessUnpack(w int, oracleFault int) {
 		b[i] = vNondetU8()
 	}
 	vals := Unpack(w, b)
+	vObserve(vals)
 	vAssert(len(vals) == 8, "unpacked count is 8")
 	if len(vals) != 8 {
 		return
